@@ -57,6 +57,9 @@ pub fn run_derive<D: DModel>(ctx: &mut Ctx) {
         }
         ctx.out.o("C08", "derive", &hx, &["dspec", &d, &val]);
         ctx.out.o("C03", "derive", &hx, &["dspec", &d, &val]);
+        if d.contains("LO(") {
+            ctx.out.o("C17", "derive", &hx, &["dspec", &d, &val]);
+        }
         ctx.out.r("C07", "derive", v.ssz_bytes_len() == bytes.len(), &["bytes_len", "denc", &d, &val, name]);
         ctx.out.r("C08", "derive", v.ssz_bytes_len() == bytes.len(), &["bytes_len", "denc", &d, &val, name]);
         if ef {
@@ -71,6 +74,10 @@ pub fn run_derive<D: DModel>(ctx: &mut Ctx) {
             let ok = matches!(&back, Ok(Ok(w)) if w.as_ssz_bytes() == bytes);
             ctx.out.r("C08", "derive", ok, &["roundtrip_mod_skipped", "ddec", &d, &hx, name]);
             ctx.out.r("C01", "derive", ok, &["roundtrip_mod_skipped", "ddec", &d, &hx, name]);
+            if d.contains("LO(") {
+                // the legacy option as a field codec inside derived containers (C17)
+                ctx.out.r("C17", "derive", ok, &["legacy_field_roundtrip", "ddec", &d, &hx, name]);
+            }
         }
         let muts = crate::codec::mutations(&mut g, &bytes, ctx.thorough);
         inputs.push(bytes);
